@@ -213,7 +213,7 @@ theorem tokRest : ∀ (rest : Rest) (lv : Nat) (pty : Ty) (prim : List RTok) (ac
     rw [xOfG_plain true e hnt] at ih
     have hg := wt_guard (isRegrouped e op.tok) (by simpa [printX] using ih)
     simp only [emitRest, oRestG, Bool.true_and]
-    apply tokRest rest lv ty _ _ hcr hwr
+    apply tokRest rest lv _ _ _ hcr hwr
     apply wt_step op dict pty ty prim _ acc _ ?_ h hg
     rcases hop with h1 | h1
     · exact Or.inl h1
@@ -405,7 +405,7 @@ theorem goodW_emitRest : ∀ (rest : Rest) (lv : Nat) (pty : Ty) (prim : List RT
     obtain ⟨⟨⟨⟨_, _⟩, _⟩, hwe⟩, hwr⟩ := hw
     have ih := goodW_emitRaw e hce hwe
     simp only [emitRest]
-    apply goodW_emitRest rest lv ty _ hcr hwr
+    apply goodW_emitRest rest lv _ _ hcr hwr
     exact good_step op dict pty ty (hop.imp id (fun h => h.1.1)) g (good_guardIf ih _)
 end
 
@@ -491,7 +491,7 @@ theorem head_oRestG : ∀ (rest : Rest) (acc : O) (pty : Ty) (o : BOp), rest.las
         cases h2 : r2.lastOp <;> simp [h2] at hlo
     | some o' =>
       rw [hlo] at h; cases h
-      exact head_oRestG rest _ t o hlo
+      exact head_oRestG rest _ _ o hlo
 
 theorem lastOpW_facts : ∀ (rest : Rest) (lv : Nat) (o : BOp), coreWRest rest = true → wfRest lv rest = true →
     rest.lastOp = some o → (o.cpp.isSome = true ∨ isIn o = true) ∧ o.level = lv ∧ (∀ s, o.cpp = some s → o.prec ∈ restPrecs rest)
@@ -690,7 +690,7 @@ theorem nfRest : ∀ (rest : Rest) (lv : Nat) (pty : Ty) (acc : O), coreWRest re
       intro _ s hs
       exact ⟨hacc op s hs hlv rfl, right_okW hs (headOKW e hce hwe hnt) (by omega)⟩
     simp only [oRestG]
-    apply nfRest rest lv ty _ hcr hwr hf.2 ?_ hstep ?_
+    apply nfRest rest lv _ _ hcr hwr hf.2 ?_ hstep ?_
     · intro h
       have := hcmp h
       simp only [Rest.length] at this
@@ -866,7 +866,7 @@ theorem stripKeep_rest : ∀ (rest : Rest) (lv : Nat) (pty : Ty) (a b : O), wfRe
     cases rest with
     | nil => simpa [oRestG] using hstep
     | cons op2 d2 t2 e2 r2 =>
-      exact stripKeep_rest (.cons op2 d2 t2 e2 r2) lv ty _ _ hwr (by simp [Rest.length]) (stripO_of_keep hstep)
+      exact stripKeep_rest (.cons op2 d2 t2 e2 r2) lv _ _ _ hwr (by simp [Rest.length]) (stripO_of_keep hstep)
 end
 
 end Tranp.Emit
